@@ -84,7 +84,9 @@ pub axiom fn ax_f64_obeys()
     ensures <f64 as AddSpec>::obeys_add_spec(), <f64 as SubSpec>::obeys_sub_spec(),
             <f64 as MulSpec>::obeys_mul_spec(), <f64 as DivSpec>::obeys_div_spec(),
             <f64 as PartialOrdSpec<f64>>::obeys_partial_cmp_spec();
+pub axiom fn ax_duration_obeys() ensures <Duration as PartialOrdSpec<Duration>>::obeys_partial_cmp_spec();
 // order facts that hold for all f64 including NaN and infinities
+pub axiom fn ax_lt_irrefl(a: f64) ensures !flt(a, a);
 pub axiom fn ax_lt_trans(a: f64, b: f64, c: f64) requires flt(a, b), flt(b, c) ensures flt(a, c);
 pub axiom fn ax_lt_gt(a: f64, b: f64) ensures flt(a, b) <==> fgt(b, a);
 pub axiom fn ax_le_lt_trans(a: f64, b: f64, c: f64) requires fle(a, b), flt(b, c) ensures flt(a, c);
@@ -249,6 +251,7 @@ pub open spec fn num_steps_spec<SP: StateSpace>(space: &SP, from: &SP::StateType
 
 /// exact functional characterisation of a `true` result of `check_motion(from, to)`:
 /// the checker accepted interp(from,to,i/n) for every i in 1..=n (when n > 1) and accepted `to` itself.
+#[verifier::opaque]
 pub open spec fn motion_checked<SP: StateSpace>(space: &SP, vc: &dyn StateValidityChecker<SP::StateType>, from: &SP::StateType, to: &SP::StateType) -> bool {
     let n = num_steps_spec(space, from, to);
     &&& (n > 1 ==> forall|i: usize| 1 <= i <= n ==> vc.valid(&#[trigger] space.interp_spec(from, to, t_of(i, n))))
@@ -259,17 +262,20 @@ pub open spec fn seg_checked<SP: StateSpace>(space: &SP, vc: &dyn StateValidityC
 }
 
 // premises on the space (spec predicates, never axioms); decided per concrete space by Engine K
+#[verifier::opaque]
 pub open spec fn metric_ok<SP: StateSpace>(sp: &SP) -> bool {
     forall|a: &SP::StateType, b: &SP::StateType| {
         &&& fle(0.0f64, #[trigger] sp.dist_spec(a, b))
         &&& sp.dist_spec(a, b) == sp.dist_spec(b, a)
     }
 }
+#[verifier::opaque]
 pub open spec fn convex_ok<SP: StateSpace>(sp: &SP) -> bool {
     forall|a: &SP::StateType, b: &SP::StateType, t: f64|
         sp.in_bounds_spec(a) && sp.in_bounds_spec(b) && fle(0.0f64, t) && fle(t, 1.0f64)
             ==> sp.in_bounds_spec(&#[trigger] sp.interp_spec(a, b, t))
 }
+#[verifier::opaque]
 pub open spec fn interp_speed_ok<SP: StateSpace>(sp: &SP) -> bool {
     &&& forall|a: &SP::StateType, b: &SP::StateType| rv(#[trigger] sp.dist_spec(a, b)) >= 0real
     &&& forall|a: &SP::StateType, b: &SP::StateType, s: f64, t: f64| 0real <= rv(s) <= rv(t) <= 1real
@@ -280,7 +286,14 @@ pub open spec fn interp_speed_ok<SP: StateSpace>(sp: &SP) -> bool {
             ==> rv(#[trigger] sp.dist_spec(&sp.interp_spec(a, b, t), b)) == (1real - rv(t)) * rv(sp.dist_spec(a, b))
 }
 
+/// the steering rule: the sample itself when within `max`, otherwise the point at parameter max/d
+pub open spec fn steer_spec<S: State, SP: StateSpace<StateType = S>>(sp: &SP, near: &S, q: &S, max: f64) -> S {
+    let d = sp.dist_spec(near, q);
+    if fgt(d, max) { sp.interp_spec(near, q, max.div_spec(d)) } else { *q }
+}
+
 // ------------------------------------------------------------------ Planner trait: property-level contracts
+#[verifier::opaque]
 pub open spec fn samples_in_bounds<S: State, SP: StateSpace<StateType = S>, G: GoalSampleableRegion<S>>(pd: &ProblemDefinition<S, SP, G>) -> bool {
     &&& forall|s: &S| #[trigger] pd.space.sample_set(s) ==> pd.space.in_bounds_spec(s)
     &&& forall|s: &S| #[trigger] pd.goal.goal_sample_set(s) ==> pd.space.in_bounds_spec(s)
@@ -336,3 +349,50 @@ pub trait Planner<S: State, SP: StateSpace<StateType = S>, G: Goal<S>> {
             ;
 }
 
+/// C04 premises: convex bounds, samples in bounds, usable step
+pub open spec fn in_bounds_premises<S: State, SP: StateSpace<StateType = S>, G: GoalSampleableRegion<S>>(pd: &ProblemDefinition<S, SP, G>, max: f64) -> bool {
+    &&& convex_ok(&*pd.space)
+    &&& samples_in_bounds(pd)
+    &&& fle(0.0f64, max)
+}
+/// C05 (IDEAL): the steered state is at most `max` from the near state
+pub proof fn lemma_steer_len<S: State, SP: StateSpace<StateType = S>>(sp: &SP, near: &S, q: &S, max: f64)
+    requires interp_speed_ok(sp), fle(0.0f64, max)
+    ensures rv(sp.dist_spec(near, &steer_spec(sp, near, q, max))) <= rv(max)
+{
+    reveal(interp_speed_ok);
+    let d = sp.dist_spec(near, q);
+    ax_rv_cmp(d, max); ax_rv_cmp(0.0f64, max); ax_rv_consts();
+    if fgt(d, max) {
+        assert(rv(d) > rv(max) >= 0real);
+        ax_rv_div(max, d);
+        let t = max.div_spec(d);
+        assert(rv(t) == rv(max) / rv(d));
+        assert(0real <= rv(t) <= 1real && rv(t) * rv(d) == rv(max)) by(nonlinear_arith)
+            requires rv(t) == rv(max) / rv(d), rv(d) > rv(max), rv(max) >= 0real;
+        assert(rv(sp.dist_spec(near, &sp.interp_spec(near, q, t))) == rv(t) * rv(sp.dist_spec(near, q)));
+    }
+}
+
+/// a checked motion ends in a state the checker accepted
+pub proof fn lemma_mc_valid<SP: StateSpace>(sp: &SP, vc: &dyn StateValidityChecker<SP::StateType>, a: &SP::StateType, b: &SP::StateType)
+    requires motion_checked(sp, vc, a, b)
+    ensures vc.valid(b)
+{ reveal(motion_checked); }
+
+/// C04: the steered state stays in bounds (convexity premise; steer parameter in [0,1] by EXACT ax_div_unit)
+pub proof fn lemma_steer_in_bounds<S: State, SP: StateSpace<StateType = S>>(sp: &SP, near: &S, q: &S, max: f64)
+    requires convex_ok(sp), fle(0.0f64, max), sp.in_bounds_spec(near), sp.in_bounds_spec(q)
+    ensures sp.in_bounds_spec(&steer_spec(sp, near, q, max))
+{
+    reveal(convex_ok);
+    let d = sp.dist_spec(near, q);
+    if fgt(d, max) {
+        ax_lt_gt(max, d);
+        ax_div_unit(max, d);
+    }
+}
+pub proof fn lemma_sample_in_bounds<S: State, SP: StateSpace<StateType = S>, G: GoalSampleableRegion<S>>(pd: &ProblemDefinition<S, SP, G>, q: &S)
+    requires samples_in_bounds(pd), pd.space.sample_set(q) || pd.goal.goal_sample_set(q)
+    ensures pd.space.in_bounds_spec(q)
+{ reveal(samples_in_bounds); }
